@@ -761,6 +761,18 @@ def small_fill(rng, arr, level, cplx):
     return out
 
 
+def clear_of_boundary(arr, atol):
+    """keep every entry clearly inside (|x| <= 0.9 atol) or clearly outside (|x| >= 1.1 atol) the tolerance: an entry
+    sitting on the boundary is classified by rounding of whichever formula is used (hypot vs re^2+im^2), which is not
+    a property of the finder.  Boundary entries are halved (moved clearly inside)."""
+    arr = np.array(arr)
+    mag = np.abs(arr)
+    band = (mag > 0.9 * atol) & (mag < 1.1 * atol)
+    if np.any(band):
+        arr = np.where(band, arr * 0.5, arr)
+    return np.array(arr, order="C")
+
+
 def finder_float_cases(ctx, cases, info, cid):
     """finders on FLOAT arrays whose off-structure entries straddle atol and sqrt(atol): implementation vs the documented rule
     abs(x) > atol (numpy reference) and vs the Coq model run on the thresholded mask."""
@@ -781,7 +793,7 @@ def finder_float_cases(ctx, cases, info, cid):
         if rng.random() < 0.3:
             arr = arr * rng.choice([1e-3, 10.0, 1e4])  # the threshold is absolute, not relative to the data
         atol = 1e-12 if rng.random() < 0.75 else rng.choice([1e-8, 1e-6, 1e-15])
-        arr = np.array(arr, order="C")
+        arr = clear_of_boundary(np.array(arr, order="C"), atol)
         ctx.bump(f"finder_float:level={level:g}")
         for fname in ("find_diag_axes", "find_antidiag_axes", "find_columns"):
             try:
